@@ -1,4 +1,5 @@
 import PewProofs.Overlap
+import PewProofs.OverlapD
 
 /-! # C11 — property theorems (statements only depend on `PewModel.Overlap`) -/
 namespace Pew.Overlap
@@ -498,5 +499,255 @@ theorem old_mechanism_wrong :
     mechOld .sum (some 10) [exA, exB] [0, 0] = some 11 ∧ spec .sum (some 10) [exA, exB] [0, 0] = some 1 ∧
     mechOld .sum none [exA, exB] [2, 1] = some 0 ∧ spec .sum none [exA, exB] [2, 1] = none := by
   decide +kernel
+
+
+/-! ## images of several dtypes in one list, infinite pixel values (`overlapD`)
+
+`overlap_arrays` is the same code for every list of images: `float64`, `float32`, integer and boolean images in any
+order, pixel values NaN, ±∞ or finite.  The canvas has the dtype of the first image and casts what is written into it. -/
+
+/-- **one pixel, any dtypes, any values.**  On a canvas of dtype `cdt` the mechanism returns the demanded value
+(last / IEEE mean / IEEE sum of the non-NaN values the inputs place at the pixel, the fill where there is none) as a
+canvas of that dtype holds it, provided `hypD` holds at the pixel: nothing in replace mode; in mean / sum mode on a
+floating-point canvas that the IEEE sum of the contributions is not NaN, i.e. +∞ and −∞ do not meet there
+(`sumE_nan_iff`; `inf_cancel_order_dependent` shows the mechanism leaves the specification otherwise); in sum mode on an
+integer canvas that every contribution is a finite integer (the canvas truncates after every image), on a boolean canvas
+that none is negative; mean mode on such a canvas raises (`raisesD`). -/
+theorem pixel_specD (cdt : DT) (m : Mode) (fill : EV) (arrs : List ArrE) (p : Idx)
+    (hyp : hypD cdt m arrs p = true) :
+    mechD cdt m fill arrs p = specD cdt m fill arrs p := by
+  unfold mechD specD specE
+  rw [foldlD_point]
+  cases m with
+  | replace =>
+    simp only [finishD, initD, if_true]
+    rw [fold_replaceD]
+    cases hc : contribsE arrs p with
+    | nil => simp
+    | cons c cs => simp [List.getLast?_eq_getLast_of_ne_nil]
+  | sum =>
+    simp only [initD, if_neg (show Mode.sum ≠ Mode.replace by decide)]
+    cases cdt with
+    | i8 =>
+      simp only [hypD, List.all_eq_true] at hyp
+      have h0 : castC .i8 (EV.fin 0) = EV.fin 0 := castC_i8_int _ (by simp [EV.intVal])
+      rw [h0, fold_accumI .sum (by decide) arrs p _ 0 (by simp [EV.intVal]) hyp, EV.zero_add]
+      cases hc : contribsE arrs p with
+      | nil => simp [finishD]
+      | cons c cs =>
+        simp only [finishD, List.length_cons, Nat.zero_add, Nat.succ_ne_zero, if_false]
+        rw [castC_i8_int]
+        exact sumE_int _ (by rw [← hc]; exact hyp)
+    | b1 =>
+      simp only [hypD, List.all_eq_true] at hyp
+      have h0 : castC .b1 (EV.fin 0) = EV.fin (bool01 0) := by simp [castC, bool01]
+      rw [h0, fold_accumB .sum (by decide) arrs p 0 0 (le_refl _) hyp, EV.zero_add]
+      cases hc : contribsE arrs p with
+      | nil => simp [finishD]
+      | cons c cs => simp [finishD]
+    | f8 =>
+      simp only [hypD, Bool.not_eq_true', ← Bool.not_eq_true, EV.isNan_iff] at hyp
+      have hcc := castC_float .f8 (Or.inl rfl)
+      rw [hcc, fold_accumE .f8 hcc .sum (by decide) arrs p _ 0 (by simp) (by rw [EV.zero_add]; exact hyp), EV.zero_add]
+      cases hc : contribsE arrs p with
+      | nil => simp [finishD]
+      | cons c cs => simp [finishD, hcc]
+    | f4 =>
+      simp only [hypD, Bool.not_eq_true', ← Bool.not_eq_true, EV.isNan_iff] at hyp
+      have hcc := castC_float .f4 (Or.inr rfl)
+      rw [hcc, fold_accumE .f4 hcc .sum (by decide) arrs p _ 0 (by simp) (by rw [EV.zero_add]; exact hyp), EV.zero_add]
+      cases hc : contribsE arrs p with
+      | nil => simp [finishD]
+      | cons c cs => simp [finishD, hcc]
+  | mean =>
+    simp only [initD, if_neg (show Mode.mean ≠ Mode.replace by decide)]
+    have hfl : cdt = .f8 ∨ cdt = .f4 := by cases cdt <;> simp_all [hypD]
+    have hyp' : sumE (contribsE arrs p) ≠ EV.nan := by
+      rcases hfl with rfl | rfl <;>
+        simpa only [hypD, Bool.not_eq_true', ← Bool.not_eq_true, EV.isNan_iff] using hyp
+    have hcc := castC_float cdt hfl
+    rw [hcc, fold_accumE cdt hcc .mean (by decide) arrs p _ 0 (by simp) (by rw [EV.zero_add]; exact hyp'), EV.zero_add]
+    cases hc : contribsE arrs p with
+    | nil => simp [finishD]
+    | cons c cs =>
+      simp only [finishD, List.length_cons, Nat.zero_add, Nat.succ_ne_zero, if_false, hcc]
+      split
+      · rfl
+      · have : cs = [] := by
+          cases cs with
+          | nil => rfl
+          | cons _ _ => simp at *
+        subst this; simp [EV.divNat_one]
+
+/-- where is the IEEE sum of the contributions NaN: exactly where +∞ and −∞ are both contributed -/
+theorem sumE_nan_iff (l : List EV) (h : ∀ v ∈ l, v ≠ EV.nan) : sumE l = EV.nan ↔ EV.pinf ∈ l ∧ EV.ninf ∈ l := by
+  rw [sumE_eq l h]
+  by_cases h1 : EV.pinf ∈ l <;> by_cases h2 : EV.ninf ∈ l <;> simp [h1, h2]
+
+/-- **the whole result with dtypes**: if the hypothesis of `pixel_specD` holds at every pixel of the bounding box, the
+mechanism's result (exception class, or dtype, shape and pixels) is the specification's -/
+theorem overlapD_spec (m : Mode) (fill : EV) (ndim : Nat) (arrs : List ArrE)
+    (h : ∀ p ∈ allIdx ((newShape ndim ((normaliseE ndim arrs).map ArrE.bare)).map Int.toNat),
+          hypD (canvasOf arrs) m (normaliseE ndim arrs) p = true) :
+    overlapD false m fill ndim arrs = overlapD true m fill ndim arrs := by
+  simp only [overlapD]
+  cases hr : raisesD (canvasOf arrs) m fill with
+  | some e => rfl
+  | none =>
+    simp only [Bool.false_eq_true, if_false, if_true]
+    have : ∀ p ∈ allIdx ((newShape ndim ((normaliseE ndim arrs).map ArrE.bare)).map Int.toNat),
+        mechD (canvasOf arrs) m fill (normaliseE ndim arrs) p = specD (canvasOf arrs) m fill (normaliseE ndim arrs) p :=
+      fun p hp => pixel_specD _ _ _ _ _ (h p hp)
+    rw [List.map_congr_left this]
+
+/-- **a list whose first image is floating point and whose values are NaN or finite** (images of any dtypes after the
+first, in any order): no exception, the result has the first image's dtype and is, pixel for pixel, the result of the
+plain model `overlap` on the values — about which `overlap_spec`, `bbox_exact`, `overlap_translation_invariant`,
+`overlap_perm_invariant`, `overlap_replace_last_writer` and `tiling` speak.  No hypothesis on the values. -/
+theorem overlapD_embed (spc : Bool) (m : Mode) (fill : V) (ndim : Nat) (l : List (DT × Arr))
+    (hc : canvasOf (l.map (fun x => x.2.toE x.1)) = .f8 ∨ canvasOf (l.map (fun x => x.2.toE x.1)) = .f4) :
+    overlapD spc m (embed fill) ndim (l.map (fun x => x.2.toE x.1))
+      = .ok (canvasOf (l.map (fun x => x.2.toE x.1)), (overlap spc m fill ndim (l.map (·.2))).1,
+              (overlap spc m fill ndim (l.map (·.2))).2.map embed) := by
+  simp only [overlapD]
+  have hr : raisesD (canvasOf (l.map (fun x => x.2.toE x.1))) m (embed fill) = none := by
+    rcases hc with h | h <;> rw [h] <;> rfl
+  simp only [hr]
+  have hsh : newShape ndim ((normaliseE ndim (l.map (fun x => x.2.toE x.1))).map ArrE.bare)
+      = newShape ndim (normalise ndim (l.map (·.2))) := by
+    rw [normaliseE_bare, toE_map_bare, normalise_bare, newShape_bare]
+  simp only [hsh, overlap, List.map_map]
+  congr 3
+  apply List.map_congr_left
+  intro p _
+  simp only [Function.comp]
+  rw [normaliseE_toE]
+  have hp := pixel_specD (canvasOf (l.map (fun x => x.2.toE x.1))) m (embed fill)
+    ((normPairs ndim l).map (fun x => x.2.toE x.1)) p (hypD_toE _ hc m _ p)
+  have hs : specD (canvasOf (l.map (fun x => x.2.toE x.1))) m (embed fill)
+      ((normPairs ndim l).map (fun x => x.2.toE x.1)) p = embed (spec m fill (normalise ndim (l.map (·.2))) p) := by
+    unfold specD
+    rw [castC_float _ hc, specE_embed, normPairs_snd]
+  cases spc with
+  | true => simp only [if_true]; exact hs
+  | false =>
+    simp only [Bool.false_eq_true, if_false]
+    rw [hp, hs, pixel_spec]
+
+def shiftE (t : List Int) (a : ArrE) : ArrE := { a with off := List.zipWith (· + ·) a.off t }
+
+theorem normaliseE_shift (ndim : Nat) (arrs : List ArrE) (t : List Int) (hne : arrs ≠ [])
+    (hoff : ∀ a ∈ arrs, a.off.length = ndim) (ht : t.length = ndim) :
+    normaliseE ndim (arrs.map (shiftE t)) = normaliseE ndim arrs := by
+  have hb : (arrs.map (shiftE t)).map ArrE.bare = (arrs.map ArrE.bare).map (shift t) := by
+    simp [List.map_map, Function.comp_def, shiftE, shift, ArrE.bare]
+  have key := translation_invariant ndim (arrs.map ArrE.bare) t (by simpa using hne)
+    (by intro a ha; obtain ⟨b, hb', rfl⟩ := List.mem_map.mp ha; exact hoff b hb') ht
+  rw [← hb] at key
+  simp only [normalise, List.map_map] at key
+  rw [List.map_inj_left] at key
+  simp only [normaliseE, List.map_map]
+  apply List.map_congr_left
+  intro a ha
+  have := congrArg Arr.off (key a ha)
+  simp only [Function.comp, ArrE.bare, shiftE] at this ⊢
+  rw [this]
+
+theorem overlapD_translation_invariant (spc : Bool) (m : Mode) (fill : EV) (ndim : Nat) (arrs : List ArrE)
+    (t : List Int) (hne : arrs ≠ []) (hoff : ∀ a ∈ arrs, a.off.length = ndim) (ht : t.length = ndim) :
+    overlapD spc m fill ndim (arrs.map (shiftE t)) = overlapD spc m fill ndim arrs := by
+  have hc : canvasOf (arrs.map (shiftE t)) = canvasOf arrs := by
+    cases arrs with
+    | nil => rfl
+    | cons a l => rfl
+  simp only [overlapD, normaliseE_shift ndim arrs t hne hoff ht, hc]
+
+/-- **reordering** the inputs does not change what the property demands of a pixel (mean / sum; ±∞ included) -/
+theorem specE_perm (m : Mode) (hm : m ≠ .replace) (fill : EV) (a₁ a₂ : List ArrE) (hp : a₁.Perm a₂) (p : Idx) :
+    specE m fill a₁ p = specE m fill a₂ p := by
+  have hc := contribsE_perm a₁ a₂ hp p
+  have hs := sumE_perm _ _ hc
+  have hl := hc.length_eq
+  unfold specE
+  cases h1 : contribsE a₁ p with
+  | nil =>
+    have : contribsE a₂ p = [] := by rw [h1] at hc; exact hc.nil_eq.symm
+    rw [this]
+  | cons c cs =>
+    cases h2 : contribsE a₂ p with
+    | nil => rw [h1, h2] at hl; simp at hl
+    | cons d ds =>
+      rw [h1, h2] at hs hl
+      cases m with
+      | replace => exact absurd rfl hm
+      | mean => simp only; rw [hs, hl]
+      | sum => simp only; rw [hs]
+
+/-- reordering, whole result, specification and (where the hypothesis of `pixel_specD` holds) mechanism -/
+theorem overlapD_perm_invariant (m : Mode) (hm : m ≠ .replace) (fill : EV) (ndim : Nat) (a₁ a₂ : List ArrE)
+    (hp : a₁.Perm a₂) (hc : canvasOf a₁ = canvasOf a₂) :
+    overlapD true m fill ndim a₁ = overlapD true m fill ndim a₂ := by
+  have hn := normaliseE_perm ndim a₁ a₂ hp
+  have hsh : newShape ndim ((normaliseE ndim a₁).map ArrE.bare) = newShape ndim ((normaliseE ndim a₂).map ArrE.bare) :=
+    newShape_perm ndim _ _ (hn.map _)
+  simp only [overlapD, hc, hsh, if_true]
+  cases raisesD (canvasOf a₂) m fill with
+  | some e => rfl
+  | none =>
+    simp only
+    congr 3
+    apply List.map_congr_left
+    intro p _
+    unfold specD
+    rw [specE_perm m hm fill _ _ hn p]
+
+/-- the same for the mechanism, where the hypothesis of `pixel_specD` holds on the box -/
+theorem overlapD_mech_perm_invariant (m : Mode) (hm : m ≠ .replace) (fill : EV) (ndim : Nat) (a₁ a₂ : List ArrE)
+    (hp : a₁.Perm a₂) (hc : canvasOf a₁ = canvasOf a₂)
+    (h : ∀ p ∈ allIdx ((newShape ndim ((normaliseE ndim a₁).map ArrE.bare)).map Int.toNat),
+          hypD (canvasOf a₁) m (normaliseE ndim a₁) p = true) :
+    overlapD false m fill ndim a₁ = overlapD false m fill ndim a₂ := by
+  have hn := normaliseE_perm ndim a₁ a₂ hp
+  have hsh : newShape ndim ((normaliseE ndim a₁).map ArrE.bare) = newShape ndim ((normaliseE ndim a₂).map ArrE.bare) :=
+    newShape_perm ndim _ _ (hn.map _)
+  rw [overlapD_spec m fill ndim a₁ h, overlapD_spec m fill ndim a₂, overlapD_perm_invariant m hm fill ndim a₁ a₂ hp hc]
+  intro p hp'
+  rw [← hsh] at hp'
+  rw [← hc, ← hypD_perm _ m _ _ hn p]
+  exact h p hp'
+
+/-- one-pixel images holding `v` at the origin -/
+def exInf (v : EV) : ArrE := { off := [0], shape := [1], dt := .f8, get := fun _ => v }
+
+/-- **+∞ and −∞ on one pixel: the mechanism is not the IEEE sum and depends on the order.**  `np.nansum` turns the NaN
+that ∞ − ∞ left on the canvas back into 0 when the next image is added: `[∞, −∞, 5]` gives 5 (mean 5/3), `[∞, 5, −∞]`
+gives NaN; the IEEE sum of the three values is NaN in every order. -/
+theorem inf_cancel_order_dependent :
+    mechD .f8 .sum (.fin 0) [exInf .pinf, exInf .ninf, exInf (.fin 5)] [0] = .fin 5 ∧
+    mechD .f8 .sum (.fin 0) [exInf .pinf, exInf (.fin 5), exInf .ninf] [0] = .nan ∧
+    specE .sum (.fin 0) [exInf .pinf, exInf .ninf, exInf (.fin 5)] [0] = .nan ∧
+    mechD .f8 .mean (.fin 0) [exInf .pinf, exInf .ninf, exInf (.fin 5)] [0] = .fin (5 / 3) := by
+  decide +kernel
+
+/-- a boolean mask, a float image with a NaN and +∞, an integer image on one footprint -/
+def exM1 : ArrE := { off := [0], shape := [2], dt := .b1, get := fun i => if i = [0] then .fin 1 else .fin 0 }
+def exM2 : ArrE := { off := [0], shape := [2], dt := .f8, get := fun i => if i = [0] then .nan else .pinf }
+def exM3 : ArrE := { off := [1], shape := [2], dt := .i8, get := fun _ => .fin 3 }
+
+/-- non-vacuity of `pixel_specD` / `overlapD_spec`: the hypothesis holds at every pixel for the float-first order in sum
+mode (+∞ + 3 = +∞) and for the integer-first order without the float image; it fails for the integer canvas once the
+non-integer +∞ is added -/
+example : hypD .f8 .sum [exM2, exM1, exM3] [1] = true ∧ mechD .f8 .sum .nan [exM2, exM1, exM3] [1] = .pinf
+    ∧ mechD .f8 .sum .nan [exM2, exM1, exM3] [0] = .fin 1 ∧ mechD .f8 .sum .nan [exM2, exM1, exM3] [2] = .fin 3
+    ∧ hypD .i8 .sum [exM3, exM1] [1] = true ∧ mechD .i8 .sum (.fin 0) [exM3, exM1] [1] = .fin 3
+    ∧ hypD .i8 .sum [exM3, exM2] [1] = false
+    ∧ hypD .b1 .sum [exM1, exM3] [1] = true ∧ mechD .b1 .sum (.fin 0) [exM1, exM3] [1] = .fin 1 := by
+  decide +kernel
+
+/-- hypotheses of `overlapD_embed` / `overlapD_translation_invariant` / `overlapD_perm_invariant` on a mixed list -/
+example : canvasOf ([(DT.f4, exA), (DT.i8, exB)].map (fun x => x.2.toE x.1)) = .f4
+    ∧ [exM2, exM1, exM3] ≠ [] ∧ (∀ a ∈ [exM2, exM1, exM3], a.off.length = 1)
+    ∧ [exM2, exM1, exM3].Perm [exM2, exM3, exM1] ∧ canvasOf [exM2, exM1, exM3] = canvasOf [exM2, exM3, exM1] := by
+  refine ⟨rfl, by simp, by simp [exM1, exM2, exM3], List.Perm.cons _ (List.Perm.swap _ _ _), rfl⟩
 
 end Pew.Overlap
